@@ -111,12 +111,44 @@ class Check:
 
     # ---------------------------------------------------------------- 1. facts
     def step_facts(self):
+        # a failed extraction leaves the last good file in place (the models keep building, so the search for a failing input
+        # keeps its Coq side); it is reported for every property whose theorems, witnesses or case models depend on that file
+        facts.KEEP_LAST_GOOD = True
         res = facts.run()  # all fact files: cheap, and keeps the whole development buildable
-        for n in self.cfg.get("facts", []):
-            if res.get(n) is not None:
+        failed = sorted(n for n in res if res[n] is not None)
+        deps = self.generated_deps() if failed else set()
+        for n in failed:
+            if n in self.cfg.get("facts", []) or n in deps:
                 self.broken.append(("fact", "Generated/%s.v" % n, res[n]))
                 self.say("[facts] FAILED %s: %s" % (n, res[n]))
         self.say("[facts] regenerated %d fact files from /repo (%s)" % (len(res), ", ".join(sorted(res))))
+
+    def generated_deps(self):
+        """names of the Generated modules in the Require closure of Properties/Cxx.v, Witness/Cxx.v and every model the case
+        shards of this property import (read from the sources: `From SudachiVerif Require [Import|Export] A.B C.D.`)"""
+        roots = ["Properties/%s.v" % self.pid, "Witness/%s.v" % self.pid]
+        hs = os.path.join(ROOT, "harness", "src", self.pid.lower() + ".rs")
+        if os.path.exists(hs):
+            for m in re.findall(r'"((?:Model|Proofs)\.[A-Za-z0-9_]+)"', open(hs, encoding="utf-8").read()):
+                roots.append(m.replace(".", "/") + ".v")
+        seen, gen, todo = set(), set(), list(roots)
+        while todo:
+            f = todo.pop()
+            if f in seen:
+                continue
+            seen.add(f)
+            path = os.path.join(COQ, f)
+            if not os.path.exists(path):
+                continue
+            txt = re.sub(r"\(\*.*?\*\)", " ", open(path, encoding="utf-8").read(), flags=re.S)
+            for stmt in re.findall(r"(?:From\s+SudachiVerif\s+)?Require\s+(?:Import\s+|Export\s+)?([^.]*(?:\.[A-Za-z][^.]*)*)\.\s", txt):
+                for mod in re.findall(r"(?:SudachiVerif\.)?((?:Model|Proofs|Generated|Properties|Witness)\.[A-Za-z0-9_]+)", stmt):
+                    d, n = mod.split(".")
+                    if d == "Generated":
+                        gen.add(n)
+                    else:
+                        todo.append("%s/%s.v" % (d, n))
+        return gen
 
     # ---------------------------------------------------------------- 2. proofs
     def step_proofs(self):
